@@ -1,4 +1,4 @@
-import NitroVerif.Lemmas.CliComposedDocs
+import NitroVerif.Lemmas.CliComposedLocated
 import NitroVerif.Props.C18
 import NitroVerif.Props.C03
 import NitroVerif.Props.C04
@@ -25,8 +25,11 @@ variable {Text κ : Type} [DecidableEq κ]
 abbrev WText := TsDoc × Doc
 
 def wEnv : Env WText Nat :=
-  { parseTs := fun i t => if t.1.isEmpty then .error (0, 0, i) else .ok t.1
-    parseOp := fun i t => if t.2.isEmpty || !Doc.nonEmptySelectionsB t.2 then .error (0, 0, i) else .ok t.2
+  { parseTs := fun i t =>
+      if t.1.isEmpty || !(TsDoc.positions t.1).all (fun p => p.file == i && !p.builtin) then .error (0, 0, i) else .ok t.1
+    parseOp := fun i t =>
+      if t.2.isEmpty || !Doc.nonEmptySelectionsB t.2 || !(Doc.positions t.2).all (fun p => p.file == i && !p.builtin)
+      then .error (0, 0, i) else .ok t.2
     res := fun _ rel => rel.length
     code := fun n => n.length
     pathPos := fun i => i.pos
@@ -206,7 +209,7 @@ theorem wEnv_nonEmpty : ∀ i t D, wEnv.parseOp i t = .ok D → Doc.NonEmptySele
   · rename_i hc
     cases h
     simp only [Bool.or_eq_true, Bool.not_eq_true', not_or, Bool.not_eq_false] at hc
-    exact hc.2
+    exact hc.1.2
 
 /-- the hypotheses are satisfiable together: the witness project exits 0, its resolved schema is `SchemaValid`, its
     parser rejects empty selection sets -/
@@ -254,5 +257,247 @@ example : cmdsOk wProject.cmds = true ∧ noEmptyUnionB ⟨resolvedSchema wEnv w
   exact this v hv
 
 end
+
+/-! ## 3. every offending file is named, at positions of its own nodes -/
+
+/-- **the operation checker invents no position**: for every schema and document, every position
+    `check_operation_document` reports is a position carried by a node of the document it was given, or of the schema
+    document (`Doc.positions` / `TsDoc.positions` list every position of every node, at any depth) -/
+theorem C18_checkOp_positions_from_ast (S : Schema) (D : Doc) :
+    ∀ d ∈ CheckOp.checkOp S D, d.2 ∈ Doc.positions D ∨ d.2 ∈ TsDoc.positions S.items :=
+  checkOp_positions S D
+
+/-- … and against a schema in which argument / input-field types are defined and union members are object types
+    (`schemaRefsOkB`, implied by C03's `SchemaValid`), always a position of a node of the OPERATION document -/
+theorem C18_checkOp_positions_from_own_ast (S : Schema) (hS : schemaRefsOkB S = true) (D : Doc) :
+    ∀ d ∈ CheckOp.checkOp S D, d.2 ∈ Doc.positions D :=
+  checkOp_Q (Q := fun p => p ∈ Doc.positions D) (schemaQ_of_refsOk hS _) (fun _ hp => hp)
+
+example : schemaRefsOkB ⟨resolvedSchema wEnv wProject⟩ = true ∧ Valid.SchemaValid ⟨resolvedSchema wEnv wProject⟩ := by
+  decide +kernel
+
+/-- **the schema checker invents no position**: every position `check_type_system_document` reports is a position
+    of a node of the document it was given -/
+theorem C18_checkSchema_positions_from_ast (T : TsDoc) :
+    ∀ d ∈ CheckTs.checkSchema T, d.2 ∈ TsDoc.positions T :=
+  Ts.checkSchema_positions T
+
+/-- **the extension resolver invents no position**: every position of the resolved document is a position of the
+    document it was given; so are the main position and the note of its error -/
+theorem C18_resolve_positions_from_ast (T : TsDoc) :
+    (∀ out, ExtResolve.resolve T = .ok out → ∀ p ∈ TsDoc.positions out, p ∈ TsDoc.positions T) ∧
+    (∀ e, ExtResolve.resolve T = .error e → e.position ∈ TsDoc.positions T ∧ ∀ p ∈ e.additional, p ∈ TsDoc.positions T) :=
+  ⟨fun _ h => Ext.resolve_PQ (Q := fun p => p ∈ TsDoc.positions T) (fun _ hp => hp) h,
+   fun _ h => Ext.resolve_err_PQ (Q := fun p => p ∈ TsDoc.positions T) (fun _ hp => hp) h⟩
+
+/-- **`diag_positions_from_ast`, for the whole run.**  When the check ran, the position of EVERY diagnostic is a
+    position of a node of an input document: a schema diagnostic (extension resolution, schema check) lies at a
+    position of the merged schema document — a node of a parsed schema file or of a built-in definition; an
+    operation diagnostic (extension / import resolution, operation check) lies at a position of a node of a parsed
+    operation file of the project, at the path literal of one of its `#import` lines, or — only for a fault of the
+    schema itself, see the next theorem — at a position of the resolved schema. -/
+theorem C18_diag_positions_from_ast (E : Env Text κ) (P : Project Text κ) (o : Outcome)
+    (h : runCli (stagesOf E P) = some o) (hc : Cmd.check ∈ o.commandsRun) :
+    ∀ e ∈ o.diags, ∃ p : Gql.Pos, e.diag.pos = toCli p ∧
+      ((e.kind = .schema ∧ p ∈ TsDoc.positions (mergedSchema E P)) ∨
+       (e.kind = .operation ∧
+         ((∃ v ∈ views E P, p ∈ Doc.positions v.doc ∨ ∃ i ∈ importsOf v.doc, p = E.pathPos i) ∨
+          p ∈ TsDoc.positions (resolvedSchema E P)))) := by
+  rw [C18_diags_are_check_result _ o h hc]
+  exact checkImpl_QQ (QS := fun p => p ∈ TsDoc.positions (mergedSchema E P))
+    (QO := fun p => (∃ v ∈ views E P, p ∈ Doc.positions v.doc ∨ ∃ i ∈ importsOf v.doc, p = E.pathPos i) ∨
+      p ∈ TsDoc.positions (resolvedSchema E P))
+    (fun _ hp => hp) (fun v hv p hp => Or.inl ⟨v, hv, Or.inl hp⟩) (fun v hv i hi => Or.inl ⟨v, hv, Or.inr ⟨i, hi, rfl⟩⟩)
+    (fun _ => schemaQ_of_positions (fun p hp => Or.inr hp))
+
+/-- … and when the accepted schema has no dangling argument type / non-object union member (`schemaRefsOkB`), an
+    operation diagnostic NEVER lies at a schema position: always at a node (or path literal) of an operation file -/
+theorem C18_diag_positions_from_own_ast (E : Env Text κ) (P : Project Text κ) (o : Outcome)
+    (h : runCli (stagesOf E P) = some o) (hc : Cmd.check ∈ o.commandsRun)
+    (hS : CheckTs.checkSchema (resolvedSchema E P) = [] → schemaRefsOkB ⟨resolvedSchema E P⟩ = true) :
+    ∀ e ∈ o.diags, e.kind = .operation → ∃ p : Gql.Pos, e.diag.pos = toCli p ∧
+      ∃ v ∈ views E P, p ∈ Doc.positions v.doc ∨ ∃ i ∈ importsOf v.doc, p = E.pathPos i := by
+  rw [C18_diags_are_check_result _ o h hc]
+  intro e he hk
+  obtain ⟨p, hpe, hq⟩ := checkImpl_QQ (QS := fun _ => True)
+    (QO := fun p => ∃ v ∈ views E P, p ∈ Doc.positions v.doc ∨ ∃ i ∈ importsOf v.doc, p = E.pathPos i)
+    (fun _ _ => trivial) (fun v hv p hp => ⟨v, hv, Or.inl hp⟩) (fun v hv i hi => ⟨v, hv, Or.inr ⟨i, hi, rfl⟩⟩)
+    (fun hh => schemaQ_of_refsOk (hS hh) _) e he
+  rcases hq with ⟨hk', _⟩ | ⟨_, hq⟩
+  · rw [hk] at hk'; cases hk'
+  · exact ⟨p, hpe, hq⟩
+
+/-- the hypotheses are satisfiable: the witness with the unknown field runs the check, reports two operation
+    diagnostics, and its schema passes `schemaRefsOkB` -/
+example : (∃ o, runCli (stagesOf wEnv wBadProject) = some o ∧ Cmd.check ∈ o.commandsRun ∧ o.diags.length = 2) ∧
+    (CheckTs.checkSchema (resolvedSchema wEnv wBadProject) = [] → schemaRefsOkB ⟨resolvedSchema wEnv wBadProject⟩ = true) :=
+  ⟨⟨_, rfl, by decide +kernel, by decide +kernel⟩, fun _ => by decide +kernel⟩
+
+theorem wEnv_stamps : ParserStamps wEnv := by
+  refine ⟨?_, ?_, fun i => ⟨rfl, rfl⟩⟩
+  · intro i t T h p hp
+    simp only [wEnv] at h
+    split at h
+    · cases h
+    · rename_i hc
+      cases h
+      simp only [Bool.or_eq_true, Bool.not_eq_true', not_or, Bool.not_eq_false, List.all_eq_true,
+        Bool.and_eq_true, beq_iff_eq] at hc
+      exact hc.2 p hp
+  · intro i t D h p hp
+    simp only [wEnv] at h
+    split at h
+    · cases h
+    · rename_i hc
+      cases h
+      simp only [Bool.or_eq_true, Bool.not_eq_true', not_or, Bool.not_eq_false, List.all_eq_true,
+        Bool.and_eq_true, beq_iff_eq] at hc
+      exact hc.2 p hp
+
+/-- **`C18_located` without the hypothesis `WF`.**  For the stage results COMPUTED by the stage models, "a stage
+    reports positions of the documents it was given" is a theorem, not an assumption: if the parsers stamp every
+    position of a parsed document with the file index set before the parse (`ParserStamps` — what
+    `set_current_file_of_pos` + `Pos::new` do), then every diagnostic that is not about a built-in definition has a
+    file index inside the file store, the file there is of the kind the diagnostic announces, and the JSON `file`
+    member carries exactly that index, line and column.  Side condition (decidable, part of C03's `SchemaValid`):
+    a schema the schema check accepts has no undefined argument / input-field type and no non-object union member
+    (`schemaRefsOkB`) — otherwise the operation checker reports `TypeSystemError` at a position of the SCHEMA under
+    the file kind `operation`. -/
+theorem C18_located_composed (E : Env Text κ) (P : Project Text κ) (o : Outcome)
+    (h : runCli (stagesOf E P) = some o) (hp : ParserStamps E)
+    (hS : CheckTs.checkSchema (resolvedSchema E P) = [] → schemaRefsOkB ⟨resolvedSchema E P⟩ = true) :
+    ∀ e ∈ o.diags, e.diag.pos.builtin = false →
+      (∃ i, o.store.getFile e.diag.pos.file = some (e.kind, i)) ∧
+      jsonFile o.store e.diag.pos = some (e.diag.pos.file, e.diag.pos.line, e.diag.pos.col) :=
+  located_of_inRange _ o h (checkImpl_inRange hp hS)
+
+/-- the hypotheses are satisfiable by the witness environment (its parsers reject documents whose positions do not
+    carry the file index) and the witness project with a fault -/
+example : ParserStamps wEnv ∧
+    (CheckTs.checkSchema (resolvedSchema wEnv wBadProject) = [] → schemaRefsOkB ⟨resolvedSchema wEnv wBadProject⟩ = true) ∧
+    ∃ o, runCli (stagesOf wEnv wBadProject) = some o ∧ o.diags.length = 2 :=
+  ⟨wEnv_stamps, fun _ => by decide +kernel, _, rfl, by decide +kernel⟩
+
+/-- the human format renders every diagnostic of the composed model: no `files[position.file]` panic -/
+theorem C18_human_renders_composed (E : Env Text κ) (P : Project Text κ) (o : Outcome)
+    (h : runCli (stagesOf E P) = some o) (hp : ParserStamps E)
+    (hS : CheckTs.checkSchema (resolvedSchema E P) = [] → schemaRefsOkB ⟨resolvedSchema E P⟩ = true) :
+    ∀ e ∈ o.diags, renderable o.store e.diag.pos = true := by
+  intro e he
+  unfold renderable
+  cases hb : e.diag.pos.builtin with
+  | true => rfl
+  | false =>
+    obtain ⟨⟨i, hi⟩, _⟩ := C18_located_composed E P o h hp hS e he hb
+    simp [hi]
+
+/-- **every offending file is named — extension stage, exactly.**  When the check ran and the schema was accepted:
+    every operation file whose `resolve_operation_extensions` fails contributes its diagnostic, located in that
+    very file (its file index); and conversely, if any file fails at this stage, every diagnostic of the run is
+    such a diagnostic of such a file — the set of files named = the set of files the stage model faults. -/
+theorem C18_ext_stage_files_named (E : Env Text κ) (P : Project Text κ) (o : Outcome)
+    (h : runCli (stagesOf E P) = some o) (hc : Cmd.check ∈ o.commandsRun) (hp : ParserStamps E)
+    (hres : ∃ T, ExtResolve.resolve (mergedSchema E P) = .ok T)
+    (hts : CheckTs.checkSchema (resolvedSchema E P) = []) :
+    (∀ v ∈ views E P, ∀ x, extOf E.code v.doc = .error x →
+      (⟨.operation, .opExt, opExtDiag E v.doc x⟩ : CheckErr) ∈ o.diags ∧
+      (opExtDiag E v.doc x).pos.file = v.idx ∧ (opExtDiag E v.doc x).pos.builtin = false) ∧
+    ((∃ v ∈ views E P, ∃ x, extOf E.code v.doc = .error x) →
+      ∀ e ∈ o.diags, ∃ v ∈ views E P, ∃ x, extOf E.code v.doc = .error x ∧
+        e = ⟨.operation, .opExt, opExtDiag E v.doc x⟩) := by
+  have hse : (stagesOf E P).schemaExt = none := by
+    obtain ⟨T, hT⟩ := hres
+    simp [stagesOf, hT]
+  have hsc : (stagesOf E P).schemaCheck = [] := by simp [stagesOf, hts]
+  have hext : ∀ v ∈ views E P, ∀ x, extOf E.code v.doc = .error x →
+      (opFileOf E P v).ext = some (opExtDiag E v.doc x) := by
+    intro v _ x hx; simp [opFileOf, hx]
+  rw [C18_diags_are_check_result _ o h hc]
+  constructor
+  · intro v hv x hx
+    refine ⟨(checkImpl_first_stage _ hse hsc).1 (opFileOf E P v) (by simp only [stagesOf]; exact List.mem_map.mpr ⟨v, hv, rfl⟩)
+      _ (hext v hv x hx), ?_⟩
+    obtain ⟨i, hi, hpos⟩ := extErr_line_exists hx
+    have := view_doc_file hp hv _ (import_pos_mem hi)
+    simp only [opExtDiag, toCli, hpos]
+    exact this
+  · rintro ⟨v0, hv0, x0, hx0⟩ e he
+    rcases checkImpl_cases (stagesOf E P) with ⟨d, hd, _⟩ | ⟨_, hne, _⟩ | ⟨_, _, _, heq⟩ | ⟨_, _, hnil, _⟩ | ⟨_, _, hnil, _⟩
+    · rw [hse] at hd; cases hd
+    · exact absurd hsc hne
+    · rw [heq] at he
+      obtain ⟨hk, hcl, hd⟩ := mem_tagged.mp he
+      obtain ⟨f, hf, hfe⟩ := List.mem_filterMap.mp hd
+      simp only [stagesOf] at hf
+      obtain ⟨v, hv, rfl⟩ := List.mem_map.mp hf
+      simp only [opFileOf] at hfe
+      cases hq : extOf E.code v.doc with
+      | ok imps => rw [hq] at hfe; cases hfe
+      | error x =>
+        rw [hq] at hfe
+        simp only [Option.some.injEq] at hfe
+        refine ⟨v, hv, x, hq, ?_⟩
+        cases e with
+        | mk k c d => simp only at hk hcl hfe; subst hk hcl hfe; rfl
+    all_goals
+      exfalso
+      have hm : (opFileOf E P v0).ext ∈ ((stagesOf E P).opFiles.map (·.ext)) := by
+        simp only [stagesOf, List.map_map]
+        exact List.mem_map.mpr ⟨v0, hv0, rfl⟩
+      rw [List.filterMap_eq_nil_iff] at hnil
+      have := hnil (opFileOf E P v0) (by simp only [stagesOf]; exact List.mem_map.mpr ⟨v0, hv0, rfl⟩)
+      rw [hext v0 hv0 x0 hx0] at this
+      cases this
+
+/-- **every offending file is named — check stage.**  When the check ran, the schema was accepted and both
+    resolvers succeeded for every file: every diagnostic the operation-checker model reports for ANY operation file
+    appears among the diagnostics of the run (none is dropped, for no file), and each lies in the operation file
+    whose AST contains the faulty node — the file itself, or the file an imported fragment was fetched from. -/
+theorem C18_check_stage_files_named (E : Env Text κ) (P : Project Text κ) (o : Outcome)
+    (h : runCli (stagesOf E P) = some o) (hc : Cmd.check ∈ o.commandsRun) (hp : ParserStamps E)
+    (hres : ∃ T, ExtResolve.resolve (mergedSchema E P) = .ok T)
+    (hts : CheckTs.checkSchema (resolvedSchema E P) = [])
+    (hS : schemaRefsOkB ⟨resolvedSchema E P⟩ = true)
+    (hext : ∀ v ∈ views E P, ∃ imps, extOf E.code v.doc = .ok imps)
+    (himp : ∀ v ∈ views E P, ∃ out, impOf E P v = .ok out) :
+    ∀ v ∈ views E P, ∀ d ∈ CheckOp.checkOp ⟨resolvedSchema E P⟩ (resolvedDoc E P v),
+      (⟨.operation, .opCheck, opCheckDiag E d⟩ : CheckErr) ∈ o.diags ∧
+      ∃ w ∈ views E P, d.2 ∈ Doc.positions w.doc ∧ (opCheckDiag E d).pos.file = w.idx ∧
+        (opCheckDiag E d).pos.builtin = false := by
+  have hse : (stagesOf E P).schemaExt = none := by
+    obtain ⟨T, hT⟩ := hres
+    simp [stagesOf, hT]
+  have hsc : (stagesOf E P).schemaCheck = [] := by simp [stagesOf, hts]
+  have hnone : ∀ g ∈ (stagesOf E P).opFiles, g.ext = none ∧ g.imp = none := by
+    intro g hg
+    simp only [stagesOf] at hg
+    obtain ⟨v, hv, rfl⟩ := List.mem_map.mp hg
+    exact ⟨(opFileOf_ext_none E P v).mpr (hext v hv), (opFileOf_imp_none E P v).mpr (himp v hv)⟩
+  rw [C18_diags_are_check_result _ o h hc]
+  intro v hv d hd
+  constructor
+  · refine (checkImpl_first_stage _ hse hsc).2.2 hnone (opFileOf E P v)
+      (by simp only [stagesOf]; exact List.mem_map.mpr ⟨v, hv, rfl⟩) _ ?_
+    simp only [opFileOf]
+    exact List.mem_map.mpr ⟨d, hd, rfl⟩
+  · have hpos := C18_checkOp_positions_from_own_ast _ hS _ d hd
+    unfold Doc.positions at hpos
+    obtain ⟨x, hx, hpx⟩ := List.mem_flatMap.mp hpos
+    obtain ⟨w, hw, hxw⟩ := mem_resolvedDoc hv hx
+    have hin : d.2 ∈ Doc.positions w.doc := List.mem_flatMap.mpr ⟨x, (mem_defsOf hxw).1, hpx⟩
+    have := view_doc_file hp hw _ hin
+    exact ⟨w, hw, hin, by simp only [opCheckDiag, toCli]; exact this.1, by simp only [opCheckDiag, toCli]; exact this.2⟩
+
+/-- the hypotheses of the two theorems are satisfiable by the witness with a fault at the check stage -/
+example : (∃ T, ExtResolve.resolve (mergedSchema wEnv wBadProject) = .ok T) ∧
+    CheckTs.checkSchema (resolvedSchema wEnv wBadProject) = [] ∧
+    schemaRefsOkB ⟨resolvedSchema wEnv wBadProject⟩ = true ∧
+    (views wEnv wBadProject).all (fun v => match extOf wEnv.code v.doc, impOf wEnv wBadProject v with
+      | .ok _, .ok _ => true | _, _ => false) = true := by
+  refine ⟨?_, by decide +kernel, by decide +kernel, by decide +kernel⟩
+  have : (ExtResolve.resolve (mergedSchema wEnv wBadProject)).toOption.isSome = true := by decide +kernel
+  cases hq : ExtResolve.resolve (mergedSchema wEnv wBadProject) with
+  | ok T => exact ⟨T, rfl⟩
+  | error e => rw [hq] at this; cases this
 
 end NitroVerif.CliComposed
